@@ -34,6 +34,8 @@ import (
 // Independently of both: over every interval all instances together are granted at
 // most burst + rate x (whole seconds elapsed), plus the local allowance of exactly
 // those instances that had a reason (fault, outage) to be cut off from the store.
+// The context a caller passes (ctx_test.go) is no such reason: a request whose context
+// ended may be answered false, everything else stays as it is.
 
 type bstate struct {
 	tokens int
@@ -51,6 +53,7 @@ type tInst struct {
 	excuseUntil time.Time // bypassing the store is excused for calls starting before this
 	maxNow      time.Time // largest `now` of the calls of this instance that returned
 	bypassed    bool      // some call was answered without the store
+	cxSuspect   bool      // served by the store, then a call with an ended context returned, no store decision since
 	calls       []*tCall
 }
 
@@ -60,7 +63,7 @@ type tCall struct {
 	n          int
 	start, end time.Time
 	execs      []tExec
-	cancelled  bool
+	cx         *cxPlan // the caller's context; cx.ended: it was over when the call returned
 	res        bool
 	store      bool          // result is a grant the server issued to this call
 	rescue     bool          // granted, but not by the server: charged to the local bucket
@@ -92,6 +95,7 @@ type tWorld struct {
 	expired     bool      // the bucket expired at least once before an execution
 	final       bool
 	calls       []*tCall
+	cancellers  []*simrt.Task
 	nExec       int
 	sGrants     int
 	rGrants     int
@@ -150,6 +154,11 @@ func (w *tWorld) onExec(e *simredis.Exec) {
 	kind, v, msg := reply(e.Reply)
 	r.Ev("texec", int64(e.Cmd.Task), int64(kind), v)
 	c := w.cur[e.Cmd.Task]
+	if c != nil {
+		// (a context that is cancelled now ends while the reply - also a NOSCRIPT reply, which
+		// is followed by a second command - is on its way back)
+		c.cx.onExec(r)
+	}
 	if kind == 'e' {
 		if strings.HasPrefix(msg, "NOSCRIPT") {
 			return
@@ -338,7 +347,9 @@ func (h instHook) ProcessHook(next red.ProcessHook) red.ProcessHook {
 			w.r.Ev("pong", int64(h.in.id))
 		case name == "ping":
 			w.r.Probe("token-ping-failed")
-		case err != nil && !errors.Is(err, red.Nil) && !strings.HasPrefix(err.Error(), "NOSCRIPT") && !errors.Is(err, context.Canceled):
+		case isCtxErr(err):
+			w.r.Probe("token-store-call-ended-by-context")
+		case err != nil && !errors.Is(err, red.Nil) && !strings.HasPrefix(err.Error(), "NOSCRIPT"):
 			var ne net.Error
 			if errors.As(err, &ne) || strings.Contains(err.Error(), "EOF") || strings.Contains(err.Error(), "refused") || strings.Contains(err.Error(), "reset") {
 				w.r.Probe("token-rescue-entered-transport")
@@ -380,11 +391,22 @@ func (w *tWorld) finish(c *tCall) {
 	if decisive > 1 {
 		r.Probe("token-call-retried")
 	}
-	if c.cancelled {
-		// a cancelled context must not turn into a grant of the store path; an instance
-		// that is answering locally does not look at the context, so a `true` is judged
-		// like any other answer given without the store
-		r.Probe("token-cancelled-context")
+	if c.cx.ended {
+		// the caller's context was over when the call returned (before the call or while it
+		// ran).  That is the caller's affair, not an outage: `false` is an acceptable answer
+		// whatever the server did (tokens it handed out are lost, not over-granted); a `true`
+		// is judged like any other answer - an instance that is legitimately answering
+		// locally does not look at the context, anybody else needs the store's grant
+		r.Probe("token-call-context-ended")
+		if c.cx.kind == cxCancelled {
+			r.Probe("token-cancelled-context")
+		}
+		if decisive > 0 {
+			r.Probe("token-context-ended-request-executed-anyway")
+		}
+		if !in.bypassed {
+			in.cxSuspect = true
+		}
 		if !c.res {
 			return
 		}
@@ -404,13 +426,22 @@ func (w *tWorld) finish(c *tCall) {
 			if !in.bypassed && !w.faulty {
 				def = "no-store-decision"
 			}
+			how := ""
+			if c.cx.ended || in.cxSuspect {
+				// the only thing that happened to this instance is a caller whose context ended
+				def = "caller-context-ended"
+				how = fmt.Sprintf(" (context of this call: %v, ended: %v; an earlier call of the instance returned with an ended context: %v - a caller's context is no store outage)", c.cx.kind, c.cx.ended, in.cxSuspect)
+			}
 			w.note(4, "token-store-bypassed-store-reachable/"+w.bypassCause(def),
-				"rate %d burst %d: instance %d answered AllowN(now=%s, n=%d)=%v at %s without a decision of the store although the store is reachable and nothing failed for this instance in the last %v (final phase: %v; server answers to this call: %d)",
-				w.rate, w.burst, in.id, c.now.Format("15:04:05.000"), c.n, c.res, c.start.Format("15:04:05.000"), excuseWindow, w.final, len(c.execs))
+				"rate %d burst %d: instance %d answered AllowN(now=%s, n=%d)=%v at %s without a decision of the store although the store is reachable and nothing failed for this instance in the last %v (final phase: %v; server answers to this call: %d)%s",
+				w.rate, w.burst, in.id, c.now.Format("15:04:05.000"), c.n, c.res, c.start.Format("15:04:05.000"), excuseWindow, w.final, len(c.execs), how)
 		}
-	} else if in.bypassed {
-		in.bypassed = false
-		r.Probe("token-store-mode-resumed")
+	} else {
+		in.cxSuspect = false
+		if in.bypassed {
+			in.bypassed = false
+			r.Probe("token-store-mode-resumed")
+		}
 	}
 	switch {
 	case c.res && sGrant:
@@ -472,7 +503,7 @@ func (w *tWorld) checkLocal() {
 func (w *tWorld) checkGlobal() {
 	var gs []*tCall
 	for _, c := range w.calls {
-		if c.res && !c.cancelled {
+		if c.res {
 			gs = append(gs, c)
 		}
 	}
@@ -510,8 +541,12 @@ func (w *tWorld) checkGlobal() {
 			if float64(sum) > bound+1e-6 {
 				var hist []string
 				perInst := map[int]int{}
+				unexcused := 0 // tokens granted without the store by instances that had no reason to
 				for _, g := range cand[:j+1] {
 					perInst[g.in.id] += g.n
+					if g.rescue && !g.excused {
+						unexcused += g.n
+					}
 					src := "store"
 					if g.rescue {
 						src = "local"
@@ -520,7 +555,12 @@ func (w *tWorld) checkGlobal() {
 						hist = append(hist, fmt.Sprintf("i%d n=%d@%s(%s)", g.in.id, g.n, g.start.Format("05.000"), src))
 					}
 				}
-				w.note(1, "token-overgrant-store-reachable/"+w.cause(c.trouble, "joint-bound"),
+				sub := w.cause(c.trouble, "joint-bound")
+				if float64(sum-unexcused) <= bound+1e-6 {
+					// what the store granted is within the bound: the excess was granted beside it
+					sub = w.bypassCause("answered-without-store")
+				}
+				w.note(1, "token-overgrant-store-reachable/"+sub,
 					"rate %d burst %d, %d instances on one key: %d tokens granted between %s and %s (%d whole seconds apart), the joint bound is burst + rate x elapsed = %.0f (%d instances excused by faults); per instance %v; grants: %s",
 					w.rate, w.burst, len(w.insts), sum, t1.Format("15:04:05.000"), t2.Format("15:04:05.000"), t2.Unix()-t1.Unix(), bound, len(exc), perInst, strings.Join(hist, " "))
 				return
@@ -575,10 +615,11 @@ func tokenRun(r *simrt.Run, tier string, faulty bool) {
 			outages = t.Range(1, 2)
 		}
 	}
+	var pol func(*simredis.Cmd) simredis.Fault
 	if transport {
-		pol := simredis.Policy(r, faultRates(t, &faultsOn))
-		srv.Fault = func(c *simredis.Cmd) simredis.Fault {
-			f := pol(c)
+		inner := simredis.Policy(r, faultRates(t, &faultsOn))
+		pol = func(c *simredis.Cmd) simredis.Fault {
+			f := inner(c)
 			if f.Kind != simredis.None && f.Kind != simredis.Latency {
 				if in := w.instOfTask[c.Task]; in != nil {
 					w.excuse(in, time.Now().Add(excuseWindow))
@@ -587,6 +628,14 @@ func tokenRun(r *simrt.Run, tier string, faulty bool) {
 			return f
 		}
 	}
+	// (all members: calls whose context is due to end are stretched across that instant)
+	srv.Fault = cxFault(r, pol, func(task int) *cxPlan {
+		if c := w.cur[task]; c != nil {
+			return c.cx
+		}
+		return nil
+	})
+	often := cxOften(t)
 	key := "tl"
 	type client struct {
 		in   *tInst
@@ -612,15 +661,14 @@ func tokenRun(r *simrt.Run, tier string, faulty bool) {
 	if offset > 0 {
 		r.Sleep(offset)
 	}
-	call := func(tid int, in *tInst, n int, cancelled bool) *tCall {
-		c := &tCall{in: in, now: time.Now(), n: n, cancelled: cancelled}
+	call := func(tid int, in *tInst, n int, cx *cxPlan) *tCall {
+		c := &tCall{in: in, now: time.Now(), n: n, cx: cx}
 		c.start = c.now
 		w.cur[tid] = c
 		w.instOfTask[tid] = in
+		ctx := cx.open(r, &w.cancellers)
 		switch {
-		case cancelled:
-			ctx, cancel := context.WithCancel(context.Background())
-			cancel()
+		case ctx != nil:
 			if n == 1 && w.short {
 				c.res = in.lim.AllowCtx(ctx)
 			} else {
@@ -638,15 +686,16 @@ func tokenRun(r *simrt.Run, tier string, faulty bool) {
 		default:
 			c.res = in.lim.AllowN(c.now, n)
 		}
+		cx.close(r)
 		delete(w.cur, tid)
 		g := int64(0)
 		if c.res {
 			g = 1
 		}
-		r.Ev("allow", int64(in.id), int64(n), g)
+		r.Ev("allow", int64(in.id), int64(n), g, int64(cx.kind))
 		w.finish(c)
 		if r.Tracing() {
-			r.Logf("inst%d: AllowN(now=%s, n=%d) -> %v execs=%v store=%v local=%v excused=%v stale=%v", in.id, c.now.Format("15:04:05.000000000"), n, c.res, c.execs, c.store, c.rescue, c.excused, c.stale)
+			r.Logf("inst%d: AllowN(now=%s, n=%d, ctx %v d=%v trig=%d ended=%v) -> %v execs=%v store=%v local=%v excused=%v stale=%v", in.id, c.now.Format("15:04:05.000000000"), n, cx.kind, cx.d, cx.trig, cx.ended, c.res, c.execs, c.store, c.rescue, c.excused, c.stale)
 		}
 		return c
 	}
@@ -692,7 +741,7 @@ func tokenRun(r *simrt.Run, tier string, faulty bool) {
 				default:
 					n = t.Range(1, (w.burst+3)/4)
 				}
-				call(tid, cl.in, n, t.Chance(1, 24))
+				call(tid, cl.in, n, drawCx(t, often))
 			}
 		}))
 	}
@@ -740,6 +789,10 @@ func tokenRun(r *simrt.Run, tier string, faulty bool) {
 		r.Fail("stuck", "outage controller did not return")
 		return
 	}
+	if !r.JoinTimeout(time.Hour, w.cancellers...) {
+		r.Fail("stuck", "context cancellers did not return")
+		return
+	}
 	// final phase: faults stopped, store reachable; after the recovery budget every
 	// instance must be served by the store again
 	faultsOn = false
@@ -748,7 +801,7 @@ func tokenRun(r *simrt.Run, tier string, faulty bool) {
 	w.final = true
 	mainID := r.CurrentID()
 	for _, in := range w.insts {
-		call(mainID, in, 1, false)
+		call(mainID, in, 1, &cxPlan{})
 	}
 	delete(w.instOfTask, mainID)
 	r.Sleep(2 * time.Second)
@@ -776,7 +829,7 @@ func tokenRun(r *simrt.Run, tier string, faulty bool) {
 		}
 	}
 	r.Sample(map[string]any{"component": "TokenLimiter", "faulty": faulty, "rate": w.rate, "burst": w.burst, "instances": nInst, "client_tasks": len(clients),
-		"calls_per_task": nSteps, "transport_faults": transport, "outage_windows": outages, "initial_offset": offset.String(),
+		"calls_per_task": nSteps, "transport_faults": transport, "outage_windows": outages, "initial_offset": offset.String(), "calls_with_own_context_per_24": often,
 		"calls": len(w.calls), "tokens_granted": grants, "script_executions": w.nExec, "local_grants": w.rGrants, "faults_fired": srv.FiredMap()})
 	w.flush()
 }
